@@ -1,6 +1,8 @@
 """Decision procedure shared by C07 and C08 (one transaction / entity-event model, one harness
 executor; the properties differ in theorems, generators and in what counts as non-trivial).
 
+Case line:  E nP reg* nC reg* txl [I nIxP ixreg* nIxC ixreg*] T ntx tx*   (see lean/StorageModel/Tx/Wire.lean)
+
 Implementation output (per transaction):  r= same= runs= pre= pa= sync= async= ca= dump=
   * compared verbatim with the Lean engine model (run under the return table regenerated from
     boltz/store_crud.go / store.go)                                        -> correspondence
@@ -67,11 +69,21 @@ def parse_case(line):
             toks += [nxt(), nxt()]
         return toks
 
+    def ixreg():
+        # custom index-stage constraint: nveto (stage id)*
+        return {"head": [], "items": [[nxt(), nxt()] for _ in range(int(nxt()))]}
+
     assert nxt() == "E"
     regs_p = [reg() for _ in range(int(nxt()))]
     regs_c = [reg() for _ in range(int(nxt()))]
     txl = int(nxt())
-    assert nxt() == "T"
+    ix_p, ix_c = [], []
+    t0 = nxt()
+    if t0 == "I":
+        ix_p = [ixreg() for _ in range(int(nxt()))]
+        ix_c = [ixreg() for _ in range(int(nxt()))]
+        t0 = nxt()
+    assert t0 == "T"
     txs = []
     for _ in range(int(nxt())):
         assert nxt() == "tx"
@@ -79,7 +91,7 @@ def parse_case(line):
         steps = [step() for _ in range(int(nxt()))]
         txs.append({"mode": mode, "reuse": reuse, "steps": steps})
     assert pos[0] == len(t)
-    return {"regsP": regs_p, "regsC": regs_c, "txl": txl, "txs": txs}
+    return {"regsP": regs_p, "regsC": regs_c, "txl": txl, "ixP": ix_p, "ixC": ix_c, "txs": txs}
 
 
 def unparse_case(c):
@@ -90,7 +102,16 @@ def unparse_case(c):
             out += r["head"] + [str(len(r["items"]))]
             for it in r["items"]:
                 out += it
-    out += [str(c["txl"]), "T", str(len(c["txs"]))]
+    out.append(str(c["txl"]))
+    if c.get("ixP") or c.get("ixC"):
+        out.append("I")
+        for regs in (c.get("ixP", []), c.get("ixC", [])):
+            out.append(str(len(regs)))
+            for r in regs:
+                out.append(str(len(r["items"])))
+                for it in r["items"]:
+                    out += it
+    out += ["T", str(len(c["txs"]))]
     for tx in c["txs"]:
         out += ["tx", tx["mode"], tx["reuse"], str(len(tx["steps"]))]
         for s in tx["steps"]:
@@ -110,14 +131,14 @@ def shrink_candidates(c):
             d = copy.deepcopy(c)
             del d["txs"][i]["steps"][j]
             yield d
-    for key in ("regsP", "regsC"):
-        for i in range(len(c[key])):
+    for key in ("regsP", "regsC", "ixP", "ixC"):
+        for i in range(len(c.get(key, []))):
             d = copy.deepcopy(c)
             del d[key][i]
             yield d
-        for i, r in enumerate(c[key]):
+        for i, r in enumerate(c.get(key, [])):
             for j in range(len(r["items"])):
-                if r["head"][0] == "l" and len(r["items"]) == 1:
+                if r["head"] and r["head"][0] == "l" and len(r["items"]) == 1:
                     continue
                 d = copy.deepcopy(c)
                 del d[key][i]["items"][j]
